@@ -20,9 +20,11 @@ import (
 	"flag"
 	"fmt"
 	"math"
+	"math/big"
 	"strings"
 
 	"github.com/enfein/mieru/v3/pkg/appctl/appctlpb"
+	"github.com/enfein/mieru/v3/pkg/cipher"
 	"github.com/enfein/mieru/v3/pkg/common"
 	"github.com/enfein/mieru/v3/pkg/mathext"
 	"github.com/enfein/mieru/v3/pkg/protocol"
@@ -283,6 +285,58 @@ func groupC17(n int) {
 	}
 }
 
+// increaseNonce: the real method (through cipher.VerifIncreaseNonce: implicit nonce mode on, a copy of the bytes as the
+// nonce) on boundary nonces - all 0xff, trailing 0xff runs of every length, lengths 0 (panics), 1, 12, 24, 32 - and random
+func nonces(n int) {
+	g := r.Rng
+	one := func(nonce []byte) {
+		var got []byte
+		out := emit("increaseNonce", []string{"1", vh.Hex(nonce)}, func() string { got = cipher.VerifIncreaseNonce(nonce); return vh.Hex(got) })
+		tr := 0
+		for k := len(nonce) - 1; k >= 0 && nonce[k] == 0xff; k-- {
+			tr++
+		}
+		r.Distinct(fmt.Sprintf("nonce/len%d/ff%d", len(nonce), tr))
+		cs := map[string]string{"func": "increaseNonce", "nonce": vh.Hex(nonce)}
+		if len(nonce) == 0 {
+			if out != "PANIC" {
+				r.Fail("increase-nonce-empty-no-panic", "increaseNonce on an empty nonce returned "+out, cs)
+			}
+			return
+		}
+		// docs/protocol.md: the nonce is a big-endian counter, +1 per encryption, wrapping
+		want := new(big.Int).Add(new(big.Int).SetBytes(nonce), big.NewInt(1))
+		want.Mod(want, new(big.Int).Lsh(big.NewInt(1), uint(8*len(nonce))))
+		if out == "PANIC" || len(got) != len(nonce) || new(big.Int).SetBytes(got).Cmp(want) != 0 {
+			r.Fail("increase-nonce-is-not-plus-one", "increaseNonce("+vh.Hex(nonce)+") = "+out, cs)
+		}
+	}
+	one(nil)
+	for _, l := range []int{1, 2, 12, 24, 32} {
+		for tr := 0; tr <= l; tr++ { // trailing 0xff runs of every length (tr = l: all 0xff, wraps to zero)
+			for _, before := range []byte{0x00, 0x7f, 0xfe} {
+				b := g.Bytes(l)
+				for k := l - tr; k < l; k++ {
+					b[k] = 0xff
+				}
+				if tr < l {
+					b[l-tr-1] = before
+				}
+				one(b)
+			}
+		}
+		one(make([]byte, l))
+	}
+	for k := 0; k < n; k++ {
+		l := []int{12, 24, 24, 24, 1 + g.Intn(40)}[g.Intn(5)]
+		b := g.Bytes(l)
+		for j := l - g.Intn(l+1); j < l; j++ {
+			b[j] = 0xff
+		}
+		one(b)
+	}
+}
+
 // protocol type predicates: every byte (complete)
 func groupC09() {
 	for p := 0; p < 256; p++ {
@@ -468,6 +522,7 @@ func main() {
 	}
 	if *group == "c09" || *group == "all" {
 		groupC09()
+		nonces(n)
 	}
 	if r.Rep.Notes == nil {
 		r.Rep.Notes = map[string]string{}
